@@ -1,26 +1,9 @@
 ------------------------------- MODULE MC_Router -------------------------------
-EXTENDS Router, Json
-
-CONSTANT Words
-R1 == [names |-> [en |-> "en", fr |-> "fr"], default |-> "en", set |-> "R1"]
-R2 == [names |-> [en |-> "en", enUS |-> "en-US", fr |-> "fr"], default |-> "en", set |-> "R2"]
-R3 == [names |-> [fr |-> "fr", fra |-> "fra", en |-> "en"], default |-> "fr", set |-> "R3"]
-MCLocaleSets == {R1, R2, R3}
-MCBases == { <<>>, <<"app">> }
-T1 == << <<Loc("about")>>, <<Loc("users"), Param>>, <<St("docs"), Splat>> >>
-T2 == << <<Opt, Loc("about")>>, <<St("x"), Loc("users"), Opt>> >>
-T3 == << >>
-MCTables == {T1, T2, T3}
-Segs(x) == { LocName[k][x] : k \in DOMAIN LocName }
-\* paths below the prefix: up to 2 words, plus spellings of the localized segments in each locale
-MCRests == { <<>> } \cup { <<a>> : a \in Words } \cup { <<a, b>> : a \in Words, b \in Words }
-
-\* spelling of base paths given to the real code
-BaseText(b) == IF b = <<>> THEN {"", "/"} ELSE {"app", "/app", "app/", "/app/"}
+EXTENDS Router, RouterUniverse, Json
 
 EmitCases == (n = 0) =>
     PrintT(<<"CASE", ToJson([family |-> "router",
-                             abs |-> [set |-> ls.set, names |-> ls.names, default |-> ls.default, base |-> base, table |-> table,
+                             abs |-> [set |-> ls.set, names |-> ls.names, order |-> ls.order, default |-> ls.default, base |-> base, table |-> table,
                                       rest |-> rest0, cur |-> cur0]])>>)
 MCSpec == Init /\ [][Next]_vars
 NoTrail == <<ls, base, table, rest0, cur0, cur, rest, n>>
